@@ -75,7 +75,7 @@ def check_roots(ctx, clause, roots, label, owner_classes):
                 ok = any(k.qual in owned_cls for k in [f.cls] + f.cls.all_subclasses()) and f.cls.qual in owned_cls or \
                     any(k.qual in owned_cls for k in f.cls.all_subclasses()) and not _is_model(f.cls)
                 why = "object of class %s" % f.cls.name
-                key = "R-PURE|%s|%s|%s" % (label, f.short, norm(stmt)[:60])
+                key = "R-PURE|%s|%s|%s" % (label, f.short, f.key(stmt)[:60])
                 if not ok:
                     obs.append(Ob(clause, "R-PURE", key, f.loc(stmt), False,
                                   "%s reached from %s writes a field of a %s it did not create: %s" % (f.short, label, why, norm(stmt)[:60])))
@@ -87,7 +87,7 @@ def check_roots(ctx, clause, roots, label, owner_classes):
                 continue
             fresh, external = creation_roots(ctx, node)
             foreign = [(e, ff) for e, ff in fresh if ff.qual not in reach]
-            key = "R-PURE|%s|%s|%s" % (label, f.short, norm(stmt)[:60])
+            key = "R-PURE|%s|%s|%s" % (label, f.short, f.key(stmt)[:60])
             if foreign or external:
                 origin = (foreign and "%s `%s`" % (foreign[0][1].loc(foreign[0][0]), norm(foreign[0][0])[:40])) or \
                     g.describe(external[0])
